@@ -9,6 +9,11 @@ from lentil import detector
 from vlib import gen
 from vlib.runner import Skip, Violation, expect_raises, hyp, lentil_call
 
+# the check's own calls are issued with keywords or positionally in the documented order (vlib/callforms.py)
+from vlib import callforms as _cf
+lentil = _cf.proxy(lentil)
+detector = _cf.proxy(detector, "detector.")
+
 RULE = ("seeds 0..2^32, frame shapes incl. non-square, signal levels 0..1e15 (Poisson) / 1e3..1e12 (Gaussian), "
         "negative and > 9.2e18 signals (scalar and inside arrays) for both methods, read-noise sigma, dark rates and "
         "pattern factors, power-spectrum masks of any aspect ratio, global RNG states for cosmic rays; non-trivial = "
